@@ -238,3 +238,21 @@ func must(t *testing.T, err error) {
 		t.Fatal(err)
 	}
 }
+
+// D20 (C14, rule P1 non-nil clause): a typed nil function value passes the
+// nil/Func validation; Visualize then dereferences its nil location and
+// executing it panics with "call of nil function".
+func TestDefectD20TypedNilFunc(t *testing.T) {
+	noPanic(t, func() {
+		c := dig.New()
+		_ = c.Provide((func() *dA)(nil))
+		var b bytes.Buffer
+		_ = dig.Visualize(c, &b)
+		_ = c.Invoke(func(*dA) {})
+		_ = dig.New().Invoke((func())(nil))
+		c2 := dig.New()
+		must(t, c2.Provide(func() *dA { return &dA{} }))
+		_ = c2.Decorate((func(*dA) *dA)(nil))
+		_ = c2.Invoke(func(*dA) {})
+	})
+}
